@@ -192,7 +192,9 @@ class BundleFlattener(ElabPass):
             THE_CACHE.flat_bundle_ports[entry] = flat
 
         # Replace connections to any connected instances
-        for portref in list(bundle_inst._connected_ports):
+        # Note the set of connected ports is visited in sorted order; the order in which
+        # an instance's flattened connections are (re)made is the order in which they are exported.
+        for portref in sorted_portrefs(bundle_inst._connected_ports):
             self.replace_bundle_conn(
                 inst=portref.inst, portname=portref.portname, flat=flat
             )
@@ -438,7 +440,7 @@ class BundleFlattener(ElabPass):
         bref.resolved = resolved = self.resolve_path(flat_root, Path(path))
 
         if isinstance(resolved, BundleScope):
-            for connected_port in list(bref._connected_ports):
+            for connected_port in sorted_portrefs(bref._connected_ports):
                 self.replace_bundle_conn(
                     inst=connected_port.inst,
                     portname=connected_port.portname,
@@ -472,6 +474,13 @@ class BundleFlattener(ElabPass):
                     msg = f"Cannot resolve path `{pathstr}` in `{scope}`"
                 return self.fail(msg)
         return ns
+
+
+def sorted_portrefs(portrefs) -> List[PortRef]:
+    """Sort a set of `PortRef`s by instance and port name.
+    The sets themselves are hashed by object address, and iterate in an order which differs between runs.
+    """
+    return sorted(portrefs, key=lambda p: (p.inst.name or "", p.portname))
 
 
 def instances_and_arrays(module: Module) -> List[Instance]:
